@@ -8,6 +8,9 @@
 typedef unsigned long size_t;
 extern "C" int strcmp(const char *, const char *);     // CBMC's library model (loop unwound to the string bound N)
 extern "C" size_t strlen(const char *);
+extern "C" int strncmp(const char *, const char *, size_t);
+extern "C" int strcasecmp(const char *, const char *);
+extern "C" int strncasecmp(const char *, const char *, size_t);
 #define assert(EX) __CPROVER_assert((EX), "assert(" #EX ")")   // squid's assert() aborts; here it is a proof obligation
 #endif
 
@@ -31,6 +34,10 @@ public:
     char const *termedBuf() const { return buf_; }
     bool operator !=(String const &) const;       // REAL body (src/String.cc)
     int cmp(String const &) const;                // REAL body (src/String.cc)
+    int cmp(char const *) const;                  // REAL body; not called by today's CheckPassword
+    int cmp(char const *, size_type count) const; // REAL body; ditto
+    int caseCmp(char const *) const;              // REAL body; ditto
+    int caseCmp(char const *, size_type count) const; // REAL body; ditto
     size_type len_;
     char *buf_;
 };
